@@ -735,7 +735,7 @@ pub fn run(ctx: &Ctx) {
         ctx.listed("non-numeric-input", "nonnum", "JSON documents that are not numbers (true, null, arrays, maps, foreign maps, the private number marker with a non-number, non-numeral strings, duplicate and missing fields) read as BigDecimal, through json_num and json_num_option, from text and from a Value; serde value deserializers for bool, unit, char, bytes, seq, map, str: an error or the right numeral, never a panic or another number", cases, check_nonnum);
     }
     let max_len = t.pick(200usize, 400);
-    let n = t.pick(150_000u64, 3_000_000);
+    let n = t.pick(500_000u64, 3_000_000);
     ctx.generated("decimals", "val", n, "1..400 digits; scales +-40..60, +-2000, the scale limit +-3 on both sides, anywhere in +-150000", move || val_strategy(max_len), check_val);
     let max_digits = t.pick(400usize, 2000);
     ctx.generated("json-texts", "text", n, "JSON numbers from the grammar (1..max digits, fractions with leading zeros, exponents small / at the scale limit / at the i64 ends) and single-token corruptions of them; read as number, as numeric string and through json_num / json_num_option", move || text_strategy(max_digits), check_text);
